@@ -31,7 +31,11 @@ func NewChooser(prefix []int) *Chooser { return &Chooser{prefix: prefix} }
 
 // Explore runs f for every choice sequence with at most bound deviations.
 // f returns false to abort the whole exploration. Returns the number of executions.
-func Explore(bound int, f func(c *Chooser) bool) int {
+func Explore(bound int, f func(c *Chooser) bool) int { return ExploreLimited(bound, 1<<30, f) }
+
+// ExploreLimited is Explore but deviates only at the first maxPoint choice points
+// (later points always take the default); the limit is part of the reported bound.
+func ExploreLimited(bound, maxPoint int, f func(c *Chooser) bool) int {
 	count := 0
 	stop := false
 	var rec func(prefix []int)
@@ -56,7 +60,7 @@ func Explore(bound int, f func(c *Chooser) bool) int {
 				dev++
 			}
 		}
-		for i := len(prefix); i < len(taken) && !stop; i++ {
+		for i := len(prefix); i < len(taken) && i < maxPoint && !stop; i++ {
 			if dev+1 > bound {
 				break
 			}
